@@ -18,15 +18,27 @@ import (
 // calls (judged by the other checks of this package) give on the same input.
 
 type CliCase struct {
-	Tree   *ref.Node `json:"tree"`
+	Tree   *ref.Node   `json:"tree"`
+	More   []*ref.Node `json:"more,omitempty"` // further trees of the input stream (other sizes, other tip sets)
+	First  bool        `json:"more_first,omitempty"`
 	Cmd    string    `json:"cmd"` // outgroup-args | outgroup-file | midpoint | unroot | sort
 	Names  []string  `json:"names,omitempty"`
 	Remove bool      `json:"remove,omitempty"`
 	Strict bool      `json:"strict,omitempty"`
 }
 
+func (c CliCase) stream() []*ref.Node {
+	if c.First {
+		return append(append([]*ref.Node{}, c.More...), c.Tree)
+	}
+	return append([]*ref.Node{c.Tree}, c.More...)
+}
+
 func checkCli(c CliCase) error {
-	text := ref.Write(c.Tree) + "\n"
+	text := ""
+	for _, m := range c.stream() {
+		text += ref.Write(m) + "\n"
+	}
 	var args []string
 	files := map[string]string{}
 	switch c.Cmd {
@@ -52,31 +64,36 @@ func checkCli(c CliCase) error {
 		args = []string{"rotate", "sort"}
 	}
 	return cli.Differential(args, text, files, func() (string, error) {
-		t, err := gt.FromModel(c.Tree)
-		if err != nil {
-			return "", err
+		out := ""
+		for _, m := range c.stream() {
+			t, err := gt.FromModel(m)
+			if err != nil {
+				return "", err
+			}
+			switch c.Cmd {
+			case "outgroup-args", "outgroup-file":
+				err = t.RerootOutGroup(c.Remove, c.Strict, c.Names...)
+			case "midpoint":
+				err = t.RerootMidPoint()
+			case "unroot":
+				t.UnRoot()
+			case "sort":
+				t.SortNeighborsByTips()
+			}
+			if err != nil {
+				// the command stops at the first tree it cannot handle and reports the error
+				return "", err
+			}
+			out += t.Newick() + "\n"
 		}
-		switch c.Cmd {
-		case "outgroup-args", "outgroup-file":
-			err = t.RerootOutGroup(c.Remove, c.Strict, c.Names...)
-		case "midpoint":
-			err = t.RerootMidPoint()
-		case "unroot":
-			t.UnRoot()
-		case "sort":
-			t.SortNeighborsByTips()
-		}
-		if err != nil {
-			return "", err
-		}
-		return t.Newick() + "\n", nil
+		return out, nil
 	})
 }
 
 func TestC05Cli(t *testing.T) {
 	h.Run(t, h.Spec[CliCase]{
 		Property: "C05", Name: "cli", Quick: 1600, Thorough: 32000,
-		Rule: "`gotree reroot outgroup` (tips as arguments or -l file, -r, --strict; clade, non-clade and absent names), `reroot midpoint`, `unroot`, `rotate sort` on generated trees: the printed tree must be byte-identical to what the library call gives (or both report an error); the library calls themselves are judged by the other checks of C05; non-trivial = multifurcating or rooted input",
+		Rule: "`gotree reroot outgroup` (tips as arguments or -l file, -r, --strict; clade, non-clade and absent names), `reroot midpoint`, `unroot`, `rotate sort` on generated trees: the printed tree must be byte-identical to what the library call gives (or both report an error); the library calls themselves are judged by the other checks of C05; half of the inputs are streams of 2-3 trees of different sizes and tip sets (every tree must be treated like a single one); non-trivial = multifurcating or rooted input",
 		Gen: func(t *rapid.T, thorough bool) CliCase {
 			o := gen.Opts{MinTips: 3, MaxTips: 12, Rooted: -1, MaxDeg: 5, Lens: gen.AnyPresence, LenVals: gen.DyadicZ, Sups: gen.AnyPresence}
 			m := gen.Tree(t, o)
@@ -98,6 +115,10 @@ func TestC05Cli(t *testing.T) {
 				c.Remove = rapid.Bool().Draw(t, "remove")
 				c.Strict = rapid.Bool().Draw(t, "strict")
 			}
+			for i, n := 0, rapid.SampledFrom([]int{0, 0, 1, 2}).Draw(t, "nmore"); i < n; i++ {
+				c.More = append(c.More, gen.Tree(t, o))
+			}
+			c.First = rapid.Bool().Draw(t, "morefirst")
 			return c
 		},
 		Check: checkCli,
